@@ -221,27 +221,38 @@ theorem send_spec (b : Bytes) (rb : Bool) (t : Option Nat) (ign : Bool) (s : St)
          | .ok _ => fine = true ∧ accepted ws = b
          | .error .illegal => fine = false ∧ ws = []
          | .error e => fine = true ∧ (∃ rest, b = accepted ws ++ rest)
-                        ∧ (e = .timeout ∨ e = .hang ∨ ∃ x m, e = .death x m)) := by
+                        ∧ (e = .timeout ∨ e = .hang ∨ ∃ x m, e = .death x m))
+      -- the bytes delivered to the read-backs: none without read-back, never more than the echo of
+      -- what was written, all of it on success, and strictly less when the call times out / hangs
+      ∧ (rb = false → recs = [])
+      ∧ total recs ≤ readBack (accepted ws)
+      ∧ ((send b rb t ign s).1 = .ok () → rb = true → total recs = readBack (accepted ws))
+      ∧ (∀ e, (send b rb t ign s).1 = .error e → e = .timeout ∨ e = .hang →
+          rb = true ∧ total recs < readBack (accepted ws)) := by
   unfold send
   split
   · rename_i he
     have : b = [] := by simpa using he
     subst this
-    refine ⟨[], [], IOFrame.refl s, by simp, by simp, ?_⟩
+    refine ⟨[], [], IOFrame.refl s, by simp, by simp, ?_, fun _ => rfl, by simp, fun _ _ => by simp, by simp⟩
     simp [forbidden, accepted]
   · split
     · rename_i _ hf
       simp only [Bool.and_eq_true, Bool.not_eq_true'] at hf
-      refine ⟨[], [], IOFrame.refl s, by simp, by simp, ?_⟩
-      simp [hf.1, hf.2]
+      refine ⟨[], [], IOFrame.refl s, by simp, by simp, ?_, fun _ => rfl, by simp, by simp, ?_⟩
+      · simp [hf.1, hf.2]
+      · intro e he hk
+        simp only [Except.error.injEq] at he
+        subst he
+        simp at hk
     · rename_i _ hnf
       have hfine : (ign || !forbidden s.blacklist b) = true := by
         cases ign with
         | true => rfl
         | false => simpa using hnf
-      obtain ⟨recs, ws, hfr, ⟨rest, hrest, hrok⟩, hwl, hws, _, herr⟩ :=
+      obtain ⟨recs, ws, hfr, ⟨rest, hrest, hrok⟩, hwl, hws, _, herr, hnr, hle, hokr, hto⟩ :=
         sendLoop_spec (b.length + 1) b rb t ign s.now s (by omega) hg.slice hg.wf hg.chunk hg.slow
-      refine ⟨recs, ws, hfr, hwl, hws, ?_⟩
+      refine ⟨recs, ws, hfr, hwl, hws, ?_, hnr, hle, hokr, hto⟩
       simp only [hfine]
       cases hr : sendLoop (b.length + 1) b rb t ign s.now s with
       | mk res s1 =>
@@ -275,6 +286,9 @@ theorem send_obs (r : RunSt) (payload : Bytes) (rb : Bool) (t : Option Nat) (ign
      | .unit => fine && accepted res.2.writes == payload
      | .err .illegal => !fine && (accepted res.2.writes).isPrefixOf payload
                           && !forbidden r.st.blacklist (accepted res.2.writes)
+     | .err .timeout | .err .hang =>
+       fine && (accepted res.2.writes).isPrefixOf payload
+         && rb && decide ((res.2.reads.filterMap (·.data)).flatten.length < readBack (accepted res.2.writes))
      | .err _ => fine && (accepted res.2.writes).isPrefixOf payload
      | _ => false) = true
     ∧ (match r.st.slowDelay with
@@ -283,25 +297,34 @@ theorem send_obs (r : RunSt) (payload : Bytes) (rb : Bool) (t : Option Nat) (ign
     ∧ (res.2.writes.all fun w => decide (w.1.length ≤ r.st.slice)) = true := by
   intro s0 res fine
   have hg0 : Good s0 := hg.cut
-  obtain ⟨recs, ws, hfr, hwl, hws, hres⟩ := send_spec payload rb t ign s0 hg0
+  obtain ⟨recs, ws, hfr, hwl, hws, hres, _, _, _, hto⟩ := send_spec payload rb t ign s0 hg0
   have hwrites : (send payload rb t ign s0).2.writes = ws := by rw [hfr.writes]; rfl
+  have hreads : (send payload rb t ign s0).2.reads = recs := by rw [hfr.reads]; rfl
   have hresw : res.2.writes = ws := by
     show (ofUnit (send payload rb t ign s0)).2.writes = ws
     unfold ofUnit
     cases hs : send payload rb t ign s0 with
     | mk a b => rw [hs] at hwrites; cases a <;> exact hwrites
+  have hresr : res.2.reads = recs := by
+    show (ofUnit (send payload rb t ign s0)).2.reads = recs
+    unfold ofUnit
+    cases hs : send payload rb t ign s0 with
+    | mk a b => rw [hs] at hreads; cases a <;> exact hreads
   refine ⟨?_, ?_, ?_⟩
-  · rw [hresw]
+  · rw [hresw, hresr, filterMap_data]
     show (match (ofUnit (send payload rb t ign s0)).1 with
      | .unit => fine && accepted ws == payload
      | .err .illegal => !fine && (accepted ws).isPrefixOf payload && !forbidden r.st.blacklist (accepted ws)
+     | .err .timeout | .err .hang =>
+       fine && (accepted ws).isPrefixOf payload && rb
+         && decide ((dataOf recs).flatten.length < readBack (accepted ws))
      | .err _ => fine && (accepted ws).isPrefixOf payload
      | _ => false) = true
     unfold ofUnit
     simp only at hres
     cases hs : send payload rb t ign s0 with
     | mk a b =>
-      rw [hs] at hres
+      rw [hs] at hres hto
       cases a with
       | ok u =>
         simp only at hres ⊢
@@ -318,12 +341,22 @@ theorem send_obs (r : RunSt) (payload : Bytes) (rb : Bool) (t : Option Nat) (ign
           simp only at hres ⊢
           obtain ⟨h1, ⟨rest, hrest⟩, _⟩ := hres
           have h1' : fine = true := h1
-          rw [h1', hrest]; simp [isPrefixOf_append]
+          obtain ⟨hrb, hlt⟩ := hto .timeout rfl (Or.inl rfl)
+          have hlt' : (dataOf recs).flatten.length < readBack (accepted ws) := hlt
+          have hp : (accepted ws).isPrefixOf payload = true := by
+            rw [hrest]; exact isPrefixOf_append _ _
+          rw [h1', hrb, decide_eq_true hlt', hp]
+          rfl
         | hang =>
           simp only at hres ⊢
           obtain ⟨h1, ⟨rest, hrest⟩, _⟩ := hres
           have h1' : fine = true := h1
-          rw [h1', hrest]; simp [isPrefixOf_append]
+          obtain ⟨hrb, hlt⟩ := hto .hang rfl (Or.inr rfl)
+          have hlt' : (dataOf recs).flatten.length < readBack (accepted ws) := hlt
+          have hp : (accepted ws).isPrefixOf payload = true := by
+            rw [hrest]; exact isPrefixOf_append _ _
+          rw [h1', hrb, decide_eq_true hlt', hp]
+          rfl
         | death x m =>
           simp only at hres ⊢
           obtain ⟨h1, ⟨rest, hrest⟩, _⟩ := hres
